@@ -5,8 +5,8 @@ from hypothesis import strategies as st
 
 import cssutils
 
-ELEMENTS = ['a', 'b', 'div', 'p', 'h1', 'li', 'td', 'circle', 'x-y', 'Foo', 'é', '_u']
-NAMES = ['a', 'b', 'c1', 'main', 'x-y', 'Top', 'é', '_z', 'n0', 'aabbcc', 'ffeedd', 'abc', 'fff']  # (ids that look like colours)
+ELEMENTS = ['a', 'b', 'div', 'p', 'h1', 'li', 'td', 'circle', 'x-y', 'Foo', 'é', '_u', 'u', 'u', 'U', 'dd', 'abbr', 'code']  # (u+a, u+dd look like unicode ranges)
+NAMES = ['a', 'b', 'c1', 'main', 'x-y', 'Top', 'é', '_z', 'n0', 'aabbcc', 'ffeedd', 'abc', 'fff', 'u']  # (ids that look like colours)
 ATTRS = ['href', 'title', 'lang', 'data-x', 'Type']
 ATTRVALS = ['en', 'x', 'a-b', 'http://x/y', 'a b', 'V1', '']
 OPS = [None, '=', '~=', '|=', '^=', '$=', '*=']
